@@ -139,7 +139,20 @@ def surface_module(draw):
     used = []
     for _ in range(draw(st.integers(2, 7))):
         name = draw(st.sampled_from(NAMES))
-        k = draw(st.integers(0, 13))
+        k = draw(st.integers(0, 15))
+        if k == 14:
+            # control flow at module level: what follows a raise / an endless loop is unreachable, what sits in a dead
+            # branch is never executed - but it is still part of the module's text, and safe mode promises to keep it
+            lines.append(draw(st.sampled_from([
+                "raise ImportError('retired module')\n", "assert False, 'do not import'\n", "while True:\n    pass\n", "import sys\nsys.exit(0)\n",
+                "if False:\n    pass\n", "while 1:\n    print('spin')\n", "raise SystemExit\n", "exit()\n"])))
+            continue
+        if k == 15:
+            other = draw(st.sampled_from(NAMES))
+            lines.append(draw(st.sampled_from([
+                f"if False:\n    {name} = 1\n", f"try:\n    {name} = 1\nexcept NameError:\n    {other} = 2\n", f"_ = len('{name}')\n",
+                f"with open(__file__) as {other}:\n    {name} = 1\n", f"{name} = open(__file__)\n{other} = {name}.read()\n{name}.close()\n"])))
+            continue
         if k == 0:
             lines.append(f"def {name}(a, b=1):\n    return a + b\n")
         elif k == 1:
